@@ -82,7 +82,30 @@ func Start(id, level string, quickBudget, thoroughBudget time.Duration) *Run {
 		b = *flagBudget
 	}
 	r.deadline = r.start.Add(b)
+	if os.Getenv("VERIF_WORKER") == "" {
+		go r.selfWatchdog(b)
+	}
 	return r
+}
+
+// selfWatchdog covers the main process (worker processes are watched by their parent, see RunItems): a check
+// honours its internal deadline between work items, so a process that is still alive long after it is stuck
+// inside one call. The goroutine dump decides whose call it is.
+func (r *Run) selfWatchdog(budget time.Duration) {
+	grace := budget
+	if grace < 5*time.Minute {
+		grace = 5 * time.Minute
+	}
+	time.Sleep(time.Until(r.deadline) + 2*grace + time.Minute)
+	buf := make([]byte, 8<<20)
+	n := runtime.Stack(buf, true)
+	if fn, report := hangInDump(string(buf[:n])); fn != "" {
+		r.Violation("process-hang:"+fn, "a call into the code under test did not return (main process, "+grace.String()+" x2 after the internal deadline); goroutine at the time:\n"+report, map[string]interface{}{"hang": fn})
+		r.Cap("the main process hung inside the code under test")
+		r.Finish()
+	}
+	fmt.Println("HARNESS-ERROR the check is still running long after its internal deadline and no goroutine is computing inside the repository")
+	os.Exit(2)
 }
 
 func (r *Run) Thorough() bool { return r.Tier == "thorough" }
